@@ -3,7 +3,7 @@
 //! repeatable execution).  Each scenario is computed under a 1-thread pool (the sequential
 //! reference) and under a multi-thread pool; the canonical bytes must be equal.
 //!
-//! usage: fine <scenario> [threads]      exit 0 = equal, exit 1 = differs (prints DIFFERS)
+//! usage: fine <scenario> [threads] [members]      exit 0 = equal, exit 1 = differs (prints DIFFERS)
 
 use geo::algorithm::bool_ops::BooleanOps;
 use geo::algorithm::{Area, BoundingRect, Centroid, ConvexHull, StitchTriangles, Translate, TriangulateEarcut};
@@ -52,12 +52,12 @@ fn wmp(o: &mut Vec<u8>, m: &MultiPolygon<f64>) {
     }
 }
 
-fn scenario(name: &str) -> Vec<u8> {
+fn scenario(name: &str, n: usize) -> Vec<u8> {
     let mut o = Vec::new();
     match name {
         // the par-iter surface of geo-types: ordered collects must come back in member order
         "par_iter_multipolygon" => {
-            let m = mp(24);
+            let m = mp(n);
             let a: Vec<f64> = m.par_iter().map(|p| p.unsigned_area()).collect();
             a.iter().for_each(|x| w(&mut o, *x));
             let c: Vec<Option<Point<f64>>> = m.clone().into_par_iter().map(|p| p.centroid()).collect();
@@ -72,7 +72,7 @@ fn scenario(name: &str) -> Vec<u8> {
             wmp(&mut o, &m2);
         }
         "par_iter_multipoint" => {
-            let m = MultiPoint::new((0..40).map(|i| Point::new(i as f64 * 0.3, (i * i % 11) as f64)).collect());
+            let m = MultiPoint::new((0..n * 2).map(|i| Point::new(i as f64 * 0.3, (i * i % 11) as f64)).collect());
             let a: Vec<f64> = m.par_iter().map(|p| p.x() * 3.0 - p.y()).collect();
             a.iter().for_each(|x| w(&mut o, *x));
             let b: Vec<Point<f64>> = m.clone().into_par_iter().map(|p| Point::new(p.y(), p.x())).collect();
@@ -88,7 +88,7 @@ fn scenario(name: &str) -> Vec<u8> {
             });
         }
         "par_iter_multilinestring" => {
-            let m = MultiLineString::new((0..16).map(|i| LineString::new((0..4).map(|k| Coord { x: (i * 4 + k) as f64, y: ((i + k) % 3) as f64 }).collect())).collect());
+            let m = MultiLineString::new((0..n).map(|i| LineString::new((0..4).map(|k| Coord { x: (i * 4 + k) as f64, y: ((i + k) % 3) as f64 }).collect())).collect());
             let a: Vec<usize> = m.par_iter().map(|l| l.0.len()).collect();
             a.iter().for_each(|x| o.extend_from_slice(&(*x as u64).to_le_bytes()));
             let b: Vec<Option<geo_types::Rect<f64>>> = m.clone().into_par_iter().map(|l| l.bounding_rect()).collect();
@@ -128,8 +128,9 @@ fn main() {
     let av: Vec<String> = std::env::args().collect();
     let name = av.get(1).map(|s| s.as_str()).unwrap_or("par_iter_multipolygon");
     let threads: usize = av.get(2).and_then(|s| s.parse().ok()).unwrap_or(3);
-    let reference = rayon::ThreadPoolBuilder::new().num_threads(1).build().unwrap().install(|| scenario(name));
-    let got = rayon::ThreadPoolBuilder::new().num_threads(threads).build().unwrap().install(|| scenario(name));
+    let n: usize = av.get(3).and_then(|s| s.parse().ok()).unwrap_or(12);
+    let reference = rayon::ThreadPoolBuilder::new().num_threads(1).build().unwrap().install(|| scenario(name, n));
+    let got = rayon::ThreadPoolBuilder::new().num_threads(threads).build().unwrap().install(|| scenario(name, n));
     let mut h: u64 = 0xcbf2_9ce4_8422_2325;
     for b in &got {
         h ^= *b as u64;
